@@ -27,7 +27,14 @@ func zzSamePair(a, b *zzPair) bool {
 }
 
 // ZZ_C06_Range: start/stop/resume. k = 0: no prior position; k = 1: one.
-func ZZ_C06_Range(k, batch, startMode int) {
+func ZZ_C06_Range(k, batch, startMode int) { zzC06Range(k, batch, startMode, 0) }
+
+// ZZ_C06_RangeDep: the same step for an integration that references another
+// one ("d1", one recorded position, symbolic): the stop and start bounds hold
+// whatever the dependency's position is.
+func ZZ_C06_RangeDep(k, batch, startMode int) { zzC06Range(k, batch, startMode, 1) }
+
+func zzC06Range(k, batch, startMode, withDep int) {
 	zzReset()
 	zzvrf.Unwind(batch + 3)
 	head := zzvrf.U64("head")
@@ -41,7 +48,12 @@ func ZZ_C06_Range(k, batch, startMode int) {
 	}
 	stop := zzvrf.U64("stop")
 	zzvrf.Assume(stop < 1<<62)
-	t := zzTask(src, "s", "ig", batch, 1, start, stop, nil)
+	var deps []string
+	if withDep == 1 {
+		deps = []string{"d1"}
+		zzPreState("s", "d1", 1, 1)
+	}
+	t := zzTask(src, "s", "ig", batch, 1, start, stop, deps)
 	var p0 uint64
 	if k > 0 {
 		p0 = pre.cur[k-1].num
@@ -60,6 +72,29 @@ func ZZ_C06_Range(k, batch, startMode int) {
 	if k > 0 && head < p0 {
 		zzvrf.Assert(errors.Is(err, ErrAhead) || errors.Is(err, ErrDone), "ahead-of-source")
 		zzvrf.Assert(!wrote, "nothing-written-when-ahead")
+	}
+	if withDep == 1 {
+		// with a dependency the first block and the step size are limited by the
+		// dependency's position (C05); the start/stop bounds hold regardless
+		if post != nil {
+			for i, n := range post.insLog {
+				if k > 0 {
+					zzvrf.Assert(n > p0, "resumes-after-recorded-position")
+					if i == 0 {
+						zzvrf.Assert(n == p0+1, "resumes-at-position-plus-one")
+					}
+				} else if start > 0 {
+					zzvrf.Assert(n >= start, "never-before-start")
+				}
+				zzvrf.Assert(stop == 0 || n <= stop, "never-after-stop")
+			}
+			for i := k; i < len(post.cur); i++ {
+				zzvrf.Assert(stop == 0 || post.cur[i].num <= stop, "position-never-after-stop")
+			}
+			zzvrf.Assert(zzInv(post), "rows-cover-exactly-the-position")
+		}
+		zzvrf.Reach("end")
+		return
 	}
 	if k == 0 && start == 0 && err == nil {
 		// no position, no start: the source's current head is the first block indexed
@@ -257,6 +292,60 @@ func ZZ_C05_Deps(k, ndeps, r1, r2, batch int) {
 			if dp != nil {
 				zzvrf.Assert(q <= dp.cur[len(dp.cur)-1].num, "never-ahead-of-a-referenced-integration")
 			}
+		}
+		zzvrf.Reach("advanced")
+	}
+	zzvrf.Reach("end")
+}
+
+// ZZ_C05_Moving: the referenced integration moves (forward, or back after its
+// own reorg) while the dependent retries inside one step: the dependent's top
+// position is orphaned, so its first pass detects the reorg, deletes and
+// loops; before each later pass another session commits a new position of the
+// referenced integration (READ COMMITTED makes it visible to the open
+// transaction). Whatever the step then records must not lie beyond the
+// referenced integration's position as of the step's last pass.
+func ZZ_C05_Moving(batch int) {
+	zzReset()
+	zzvrf.Unwind(batch + 3)
+	head := zzvrf.U64("head")
+	zzvrf.Assume(head > 1 && head < 1<<62)
+	src := &zzSource{withHash: true, headFixed: true, head: head}
+	pre := zzPreState("s", "ig", 2, 1)
+	zzvrf.Assume(head > pre.cur[1].num)
+	zzPreState("s", "d1", 1, 1)
+	t := zzTask(src, "s", "ig", batch, 1, 0, 0, []string{"d1"})
+	passes := 0
+	var depNow uint64
+	depNow = zzFind(&zzCommitted, "s", "d1").cur[0].num
+	zzBeforeLatest = func(tx *zzTx) {
+		passes++
+		if passes < 2 {
+			return
+		}
+		n := zzvrf.U64("d1.new-position")
+		zzvrf.Assume(n > 0 && n < 1<<62)
+		h := zzH(0, n)
+		for _, db := range []*zzDB{&zzCommitted, &tx.db} {
+			if p := zzFind(db, "s", "d1"); p != nil {
+				p.cur = []zzCur{{num: n, hash: h}}
+			}
+		}
+		depNow = n
+	}
+	err, panicked := zzConverge(t)
+	zzBeforeLatest = nil
+	zzvrf.Assert(!panicked, "no-panic")
+	if panicked {
+		return
+	}
+	post := zzFind(&zzCommitted, "s", "ig")
+	if err == nil && post != nil && len(post.insLog) > 0 {
+		zzvrf.Assert(passes >= 2, "reorg-pass-happened")
+		q := post.cur[len(post.cur)-1].num
+		zzvrf.Assert(q <= depNow, "never-ahead-of-the-referenced-integration's-current-position")
+		for _, n := range post.insLog {
+			zzvrf.Assert(n <= depNow, "no-block-processed-beyond-the-referenced-integration")
 		}
 		zzvrf.Reach("advanced")
 	}
